@@ -98,6 +98,15 @@ func list2TestKeyArgs(
 	return
 }
 
+// firstValue returns the first value when obj is multiple values and obj
+// otherwise. It is for places that take one value from a call.
+func firstValue(obj slip.Object) slip.Object {
+	if vs, ok := obj.(slip.Values); ok {
+		return vs.First()
+	}
+	return obj
+}
+
 func processBinding(s, ns *slip.Scope, arg slip.Object, depth int) {
 	var bindings slip.List
 	switch ta := arg.(type) {
